@@ -179,10 +179,10 @@ def views_of(fn, roots):
             elif views[dst["l"]] and not nv:
                 pass
         for c in calls:
-            if c.path in RESLICE or c.rpath in RESLICE:
+            if c.path in RESLICE or c.rpath in RESLICE or (c.rkey in fn.prog.reslicers if fn.prog is not None else False):
                 if c.args and c.args[0].get("k") in ("copy", "move") and c.args[0]["l"] in views:
                     if c.dest["l"] not in views and not c.dest["p"]:
-                        nar = c.path not in (
+                        nar = (c.rkey in fn.prog.narrowing_reslicers if (fn.prog is not None and c.rkey in fn.prog.reslicers) else True) and c.path not in (
                             "std::ops::DerefMut::deref_mut", "std::ops::Deref::deref",
                             "std::convert::AsMut::as_mut", "std::convert::AsRef::as_ref",
                             "types::MutBytes::as_mut_slice", "types::Bytes::as_slice",
@@ -248,7 +248,7 @@ class Clean:
                    and is_mut_ref_ty(fn.locals[a["l"]])]
             if not hit:
                 continue
-            if c.path in self.pure or c.rpath in self.pure:
+            if c.path in self.pure or c.rpath in self.pure or c.rkey in prog.reslicers:
                 continue
             if c.path in ZEROERS or (c.path == FILL and _const_arg(c, 1) == 0):
                 # zeroing of the whole buffer (not a narrowed view)?  narrowed views count as a
